@@ -165,9 +165,124 @@ def seeded(args):
     return 1 if bad else 0
 
 
+def harness(args):
+    """Unit-level checks of the simulator itself (no parglare property involved)."""
+    import builtins
+
+    from . import simfs
+
+    base = os.path.join(core.SHM, f"pgsim-harness-{os.getpid()}")
+    shutil.rmtree(base, ignore_errors=True)
+    os.makedirs(base)
+    fails = []
+
+    def expect(cond, what):
+        print(("ok   " if cond else "FAIL ") + what)
+        if not cond:
+            fails.append(what)
+
+    try:
+        # 1. write seam: every byte offset of a multi-byte text is a crash point
+        text = "a\u20acb\u00d7" * 3  # 1+3+1+2 bytes per group
+        data = text.encode("utf-8")
+
+        def child(k):
+            seam = simfs.WriteSeam(base, {"kind": "crash", "target": ".pgc", "offset": k})
+            seam.install()
+            with open(os.path.join(base, "t.pgc"), "w", encoding="utf-8") as f:
+                for ch in text:
+                    f.write(ch)
+            return "finished"
+
+        good = True
+        for k in range(len(data) + 1):
+            st, _ = core.fork_call(child, k)
+            with builtins.open(os.path.join(base, "t.pgc"), "rb") as f:
+                got = f.read()
+            if st != "crash" or got != data[:k]:
+                good = False
+                print("   offset", k, st, got, data[:k])
+        expect(good, f"crash after k bytes leaves exactly the k-byte prefix (k=0..{len(data)})")
+
+        # 2. ENOSPC: raises OSError, prefix stays, later writes fail too
+        def child2():
+            seam = simfs.WriteSeam(base, {"kind": "enospc", "target": ".pgc", "offset": 4})
+            seam.install()
+            try:
+                with open(os.path.join(base, "u.pgc"), "w") as f:
+                    f.write("0123456789")
+            except OSError as e:
+                return ["oserror", e.errno]
+            return ["no error"]
+
+        st, r = core.fork_call(child2)
+        with builtins.open(os.path.join(base, "u.pgc"), "rb") as f:
+            got = f.read()
+        expect(st == "ok" and r[0] == "oserror" and got == b"0123", "ENOSPC after 4 bytes")
+
+        # 3. simulated clock: stamp at close, explicit utime kept, plain write re-stamped
+        sim = simfs.SimDir(os.path.join(base, "sim"))
+        sim.write("g.pg", "x")
+        sim.tick(0.25)
+
+        def child3():
+            seam = simfs.WriteSeam(sim.path, None, sim.clock_ns)
+            seam.install()
+            with open(os.path.join(sim.path, "a.pgc"), "w") as f:
+                f.write("[]")
+            inside = os.path.getmtime(os.path.join(sim.path, "a.pgc"))
+            with builtins.open(os.path.join(sim.path, "b.pgc"), "w") as f:  # bypasses the seam
+                f.write("[]")
+            with builtins.open(os.path.join(sim.path, "c.pgc"), "w") as f:
+                f.write("[]")
+            os.utime(os.path.join(sim.path, "c.pgc"), (sim.clock + 500, sim.clock + 500))
+            return inside
+
+        st, inside = core.fork_call(child3)
+        changed = sim.sync()
+        expect(abs(inside - sim.clock) < 1e-6, "a file closed through the seam shows simulated time at once")
+        expect(abs(sim.mtime("b.pgc") - sim.clock) < 1e-6, "a file written past the seam is re-stamped by sync")
+        expect(abs(sim.mtime("c.pgc") - (sim.clock + 500)) < 1e-6, "an mtime set by the code under test (os.utime) is kept")
+        expect(sorted(changed) == ["a.pgc", "b.pgc", "c.pgc"], "sync reports the changed files")
+        expect(sim.mtime("g.pg") < sim.mtime("a.pgc"), "sub-second ordering g.pg < a.pgc")
+
+        # 4. step clock: an exception masked by C code still ends the run
+        core.import_parglare()
+
+        def child4():
+            from parglare import Grammar
+            from parglare.tables import create_table
+
+            g = Grammar.from_string("S: 'b' 'b' | 'b' B; A: S S 'a' | 'b'; "
+                                    "B: A S | 'a' | 'a' B 'b'; C: C | 'a';")
+            clock = core.StepClock(200_000).start()
+            surfaced = "none"
+            try:
+                create_table(g)
+            except core.StepBudgetExceeded:
+                surfaced = "StepBudgetExceeded"
+            except Exception as e:
+                surfaced = type(e).__name__
+            clock.stop()
+            return [surfaced, clock.exceeded]
+
+        st, r = core.fork_call(child4, timeout=60)
+        expect(st == "ok" and r[1] is True,
+               f"non-terminating table construction is stopped by the step budget (surfaced as {r})")
+
+        # 5. ddmin
+        got = core.ddmin(list(range(20)), lambda xs: 3 in xs and 17 in xs)
+        expect(got == [3, 17], "ddmin finds the 2-element core")
+    finally:
+        shutil.rmtree(base, ignore_errors=True)
+    return 1 if fails else 0
+
+
 def main(args):
     if args.what == "seeded":
         return seeded(args)
+    if args.what == "harness":
+        return harness(args)
     rc = 0
     if args.what in ("determinism", "all"):
         rc |= determinism(args)
